@@ -38,6 +38,9 @@ Qed.
 Lemma In_remove_all x d l : In x (remove_all d l) -> In x l.
 Proof. unfold remove_all. intros H. apply filter_In in H. apply H. Qed.
 
+Lemma In_drop_partrec x h i l : In x (drop_partrec h i l) -> In x l.
+Proof. unfold drop_partrec. intros H. apply filter_In in H. apply H. Qed.
+
 Definition legacy_intact (ds : list dfile) : Prop := forall h c, In (DColon h c) ds -> c = h.
 
 Section Inv.
@@ -110,7 +113,7 @@ Section Inv.
   Definition step_ok (t : option name) (s : store) (e : effect) : Prop :=
     match e with
     | EAddDebris (DColon h c) => c = h
-    | EAddDebris _ | ERmDebris _ | EFixPartial _ => True
+    | EAddDebris _ | ERmDebris _ | EFixPartial _ | EPartRec _ _ _ | ERmPart _ _ => True
     | ERenTemp h c | ERenPartial h c | EFixBlob h c => c = h
     | ERmBlob h => referenced_hex s h = false
     | ETruncMan n | ERmMan n => t = Some n
@@ -150,7 +153,7 @@ Section Inv.
   Lemma step_inv t s e : Inv s -> step_ok t s e -> Inv (apply_effect s e).
   Proof.
     intros HI Hs. assert (HL := inv_legacy s HI).
-    destruct e as [d|d|h c|h c|h|n|n ms|n|h c|h]; cbn [apply_effect].
+    destruct e as [d|d|h c|h c|h|n|n ms|n|h c|h|h i st|h i]; cbn [apply_effect].
     - apply (Inv_ext s); [reflexivity | reflexivity | | exact HI]. cbn [debris]. intros h c Hin. apply In_add_debris in Hin as [Hin|Hin]; [|apply (HL h c Hin)].
       subst d. exact Hs.
     - apply (Inv_ext s); [reflexivity | reflexivity | | exact HI]. cbn. eapply legacy_intact_sub; [|exact HL]. intros x. apply In_remove_one.
@@ -186,12 +189,16 @@ Section Inv.
     - cbn in Hs. subst c. apply Inv_put; [exact HI|]. eapply legacy_intact_sub; [|exact HL]. intros x. apply In_remove_all.
     - apply (Inv_ext s); [reflexivity | reflexivity | | exact HI]. cbn [debris]. intros h' c Hin. apply In_add_debris in Hin as [Hin|Hin]; [discriminate|].
       apply In_remove_all in Hin. apply (HL h' c Hin).
+    - apply (Inv_ext s); [reflexivity | reflexivity | | exact HI]. cbn [debris]. intros h' c [Hin|Hin]; [discriminate|].
+      apply In_drop_partrec in Hin. apply (HL h' c Hin).
+    - apply (Inv_ext s); [reflexivity | reflexivity | | exact HI]. cbn [debris]. intros h' c Hin.
+      apply In_drop_partrec in Hin. apply (HL h' c Hin).
   Qed.
 
   (** the manifests of other names are not touched *)
   Lemma step_frame_mans t s e n : step_ok t s e -> t <> Some n -> mget n (apply_effect s e) = mget n s.
   Proof.
-    intros Hs Hn. destruct e as [d|d|h c|h c|h|n'|n' ms|n'|h c|h]; cbn in *; try reflexivity; unfold mget; cbn.
+    intros Hs Hn. destruct e as [d|d|h c|h c|h|n'|n' ms|n'|h c|h|h i st|h i]; cbn in *; try reflexivity; unfold mget; cbn.
     - apply mget_aset_other. congruence.
     - apply mget_aset_other. destruct ms; [destruct Hs as [Hs _]|]; congruence.
     - apply mget_adel_other. congruence.
@@ -199,7 +206,7 @@ Section Inv.
 
   Lemma step_frame_listed t s e n m : step_ok t s e -> t <> Some n -> (listed (apply_effect s e) n m <-> listed s n m).
   Proof.
-    intros Hs Hn. unfold listed. destruct e as [d|d|h c|h c|h|n'|n' ms|n'|h c|h]; cbn in *; try tauto.
+    intros Hs Hn. unfold listed. destruct e as [d|d|h c|h c|h|n'|n' ms|n'|h c|h|h i st|h i]; cbn in *; try tauto.
     - rewrite (In_aset name_eqb name_eqb_spec). split; [intros [[-> _]|[_ H]]; [congruence | exact H] | intros H; right; split; [congruence | exact H]].
     - assert (Ht : t = Some n') by (destruct ms; [destruct Hs as [Hs _]|]; exact Hs).
       rewrite (In_aset name_eqb name_eqb_spec). split; [intros [[-> _]|[_ H]]; [congruence | exact H] | intros H'; right; split; [congruence | exact H']].
@@ -209,7 +216,7 @@ Section Inv.
   (** a blob that some readable manifest uses is neither removed nor altered *)
   Lemma step_frame_blob t s e h : Inv s -> step_ok t s e -> referenced_hex s h = true -> bget h (apply_effect s e) = bget h s.
   Proof.
-    intros HI Hs Hr. destruct e as [d|d|h' c|h' c|h'|n'|n' ms|n'|h' c|h']; cbn in *; try reflexivity; unfold bget; cbn.
+    intros HI Hs Hr. destruct e as [d|d|h' c|h' c|h'|n'|n' ms|n'|h' c|h'|h' i st|h' i]; cbn in *; try reflexivity; unfold bget; cbn.
     - subst c. destruct (N.eq_dec h h') as [->|Hn]; [|apply bget_aset_other, Hn].
       rewrite bget_aset_same. symmetry. apply (referenced_hex_present _ _ HI Hr).
     - subst c. destruct (N.eq_dec h h') as [->|Hn]; [|apply bget_aset_other, Hn].
